@@ -87,19 +87,40 @@ def run_records(wd, binary, inputs, configs, profile="release", name="recs"):
     return outs
 
 
+CHUNK = int(os.environ.get("VERIF_CHUNK", "30000"))     # ndJsonDeserialize + per-record behaviours scale badly beyond a few 10^4 records per TLC run
+
+
+class _Merged:
+    def __init__(self):
+        self.distinct = 0
+        self.generated = 0
+        self.cmd = ""
+        self.prints = []
+
+
 def tlc_records(wd, module, recs, name, env=None, timeout=3000):
-    path = os.path.join(wd, name + "-records.ndjson")
-    core.write_ndjson(path, recs)
-    e = {"VERIF_RECORDS": path}
-    e.update(env or {})
-    res = core.tlc(os.path.join(core.SPEC, "cf", module + ".tla"), os.path.join(core.SPEC, "cf", module + ".cfg"),
-                   name, env=e, coverage=False, timeout=timeout)
-    verdicts = {p["id"]: p for p in res.prints if isinstance(p, dict) and "id" in p}
-    bad = core.tlc_fatal(res)
-    if bad or len(verdicts) != len(recs):
-        raise core.ToolError("TLC did not adjudicate every record (%d of %d); errors: %s; see %s" %
-                             (len(verdicts), len(recs), bad[:3], os.path.join(core.WORK, "tlc-" + name + ".log")))
-    return verdicts, res
+    verdicts = {}
+    merged = _Merged()
+    for c in range(0, max(1, len(recs)), CHUNK):
+        part = recs[c:c + CHUNK]
+        suffix = "" if len(recs) <= CHUNK else "-%d" % (c // CHUNK)
+        path = os.path.join(wd, name + suffix + "-records.ndjson")
+        core.write_ndjson(path, part)
+        e = {"VERIF_RECORDS": path}
+        e.update(env or {})
+        res = core.tlc(os.path.join(core.SPEC, "cf", module + ".tla"), os.path.join(core.SPEC, "cf", module + ".cfg"),
+                       name + suffix, env=e, coverage=False, timeout=timeout)
+        v = {p["id"]: p for p in res.prints if isinstance(p, dict) and "id" in p}
+        bad = core.tlc_fatal(res)
+        if bad or len(v) != len(part):
+            raise core.ToolError("TLC did not adjudicate every record (%d of %d); errors: %s; see %s" %
+                                 (len(v), len(part), bad[:3], os.path.join(core.WORK, "tlc-" + name + suffix + ".log")))
+        verdicts.update(v)
+        merged.distinct += res.distinct
+        merged.generated += res.generated
+        merged.cmd = res.cmd
+        merged.prints += res.prints
+    return verdicts, merged
 
 
 def c11_known(key):
@@ -328,6 +349,20 @@ def c03(tier):
     for F in (gen.F64, gen.F32):
         for b in float_bits_corpus(F, gen.rng_for("C03" + F.name), tier):
             floats.append({"fmt": F.name, "bits": core.limbs(b)})
+    # floats whose shortest rendering is a SHORT decimal (k e n, k <= 4 digits): these are the floats whose shortest form can
+    # sit extremely close to a rounding boundary of the parser's extended-precision product
+    import struct
+    rng = gen.rng_for("C03short")
+    for _ in range(15000 if tier == "quick" else 200000):
+        k = rng.randrange(1, 10 ** rng.choice([1, 2, 3, 4]))
+        n = rng.randrange(-325, 305)
+        try:
+            x = float("%de%d" % (k, n))
+        except (OverflowError, ValueError):
+            continue
+        if x != x or x in (float("inf"), 0.0):
+            continue
+        floats.append({"fmt": "f64", "bits": core.limbs(struct.unpack("<Q", struct.pack("<d", x))[0]), "only": "shortest"})
     inp = os.path.join(wd, "floats.ndjson")
     core.write_ndjson(inp, floats)
     bindir = core.build_harness("std", bins=["gen_render"])
